@@ -21,6 +21,7 @@ import (
 	"strconv"
 	"strings"
 	"time"
+	"verifharness/internal/netx"
 
 	"github.com/ipfs/go-cid"
 	"github.com/ipni/go-libipni/apierror"
@@ -249,13 +250,13 @@ func Run(args []string) *rep.Report {
 			}
 		})
 	}
-	srvs := map[bool]*httptest.Server{true: httptest.NewServer(handler(true)), false: httptest.NewServer(handler(false))}
+	srvs := map[bool]*httptest.Server{true: netx.NewServer(handler(true)), false: netx.NewServer(handler(false))}
 	defer srvs[true].Close()
 	defer srvs[false].Close()
 	// the same handlers behind middleware whose ResponseWriter cannot flush (http.TimeoutHandler buffers the response): what
 	// is negotiated and written must not depend on it
-	tsrvs := map[bool]*httptest.Server{true: httptest.NewServer(http.TimeoutHandler(handler(true), 30*time.Second, "timeout")),
-		false: httptest.NewServer(http.TimeoutHandler(handler(false), 30*time.Second, "timeout"))}
+	tsrvs := map[bool]*httptest.Server{true: netx.NewServer(http.TimeoutHandler(handler(true), 30*time.Second, "timeout")),
+		false: netx.NewServer(http.TimeoutHandler(handler(false), 30*time.Second, "timeout"))}
 	defer tsrvs[true].Close()
 	defer tsrvs[false].Close()
 	idx, clientFinds := 0, 0
@@ -422,7 +423,7 @@ func Run(args []string) *rep.Report {
 	// the real client against whatever a server answers (FindAPI.tla, Answers / ClientFind)
 	if *clientCases != "" && si == 0 {
 		var ans answer
-		stub := httptest.NewServer(http.HandlerFunc(func(w http.ResponseWriter, req *http.Request) {
+		stub := netx.NewServer(http.HandlerFunc(func(w http.ResponseWriter, req *http.Request) {
 			doc, _ := model.MarshalFindResponse(&model.FindResponse{MultihashResults: []model.MultihashResult{{Multihash: theMh(), ProviderResults: results(ans.N, 1)}}})
 			if ans.N == 0 {
 				doc, _ = model.MarshalFindResponse(&model.FindResponse{})
